@@ -218,6 +218,7 @@ class World:
         self.first_step_at = {}     # thread name -> index of its first step
         self.finished_at = {}       # thread name -> index of the step after which it was finished
         self.files = {}
+        self.flagged = set()
         self._install()
 
     # -- substitution of names in the module namespaces --------------------------------------------------------------
@@ -494,10 +495,21 @@ class World:
         sub(S, "dump", lambda path_ctx: None)
         sub(S, "open", lambda name, mode="r", *a, **k: NullFile(name))
 
+        class InstrumentedExecutor(P.PopenExecutor):
+            """same code; whatever is bound to `_futures` (also by a later rebinding inside the code under test) is
+            kept as an instrumented list, so that its reads and writes stay switch points"""
+
+            def __setattr__(self, name, value):
+                if name == "_futures" and not isinstance(value, CoopList):
+                    cl = CoopList()
+                    cl.items = list(value)
+                    value = cl
+                object.__setattr__(self, name, value)
+
+        self.CoopList = CoopList
         self.lock_role = "lock"
-        self.ex = P.PopenExecutor()
+        self.ex = InstrumentedExecutor()
         self.lock_role = "slock"
-        self.ex._futures = CoopList()
         if self.exec_lock is None or self.flag is None:
             raise HarnessError("PopenExecutor no longer creates threading.Lock / threading.Event")
 
@@ -602,6 +614,12 @@ class World:
                 self.finished_at.setdefault(tt.name, n)
         return op
 
+    def registered(self) -> list:
+        """job ids in the executor's bookkeeping (`_futures`), read without a switch point"""
+        fs = getattr(self.ex, "_futures", [])
+        items = fs.items if isinstance(fs, self.CoopList) else list(fs)
+        return [getattr(f, "_c17_job", -1) for f in items]
+
     def exn_kind(self, i):
         f = self.futures.get(i)
         if f is None:
@@ -627,7 +645,7 @@ class World:
         return {
             "flag": "1" if self.flag._f else "0",
             "lock": lock,
-            "futs": [f._c17_job for f in self.ex._futures.items],
+            "futs": self.registered(),
             "wpc": [wpc(i) for i in range(n)],
             "proc": [self.procs[i].state if i in self.procs else "none" for i in range(n)],
             "exn": [self.exn_kind(i) for i in range(n)],
@@ -747,11 +765,17 @@ def run_real(cfg: str, chooser, max_steps=400, timeouts=None) -> Run:
                                f"exception escaped logical thread {t.name}: {t.error!r}"))
     except HarnessError as e:
         r.error = f"harness: {e}"
+    except Exception as e:  # noqa: BLE001 - the code under test broke an assumption of the harness: a divergence, not a crash
+        r.error = f"harness: {type(e).__name__}: {e}"
     finally:
         try:
             w.sched.teardown()
+        except HarnessError as e:
+            r.error = r.error or f"harness: {e}"
         finally:
             w.restore()
+    if r.final is None:
+        r.final = {}
     return r
 
 
@@ -793,12 +817,21 @@ def classify_alive(w: World, i: int, k: int) -> tuple[str, str]:
         return KEY_CANCEL, ("cancel() ran before the worker thread reached Popen (no-op); the process started after "
                             "shutdown(wait=False) returned")
     if cb is None:
-        return "quiescence:no-cancel-task", "a registered future got no cancel task"
+        return "quiescence:no-cancel-task", "an accepted future got no cancel task from shutdown(wait=False)"
     return "quiescence:process-survives-cancel", "process running after its cancel task finished"
 
 
 def check_quiescence(w: World, r: Run, alive_after: dict):
     n = len(w.events) - 1
+    # bookkeeping: a future whose worker thread exists and that has not delivered yet must be known to the executor
+    # (otherwise neither shutdown(wait=False) can cancel it nor shutdown(wait=True) wait for it)
+    reg = w.registered()
+    for i in range(len(w.jobs)):
+        if f"w{i}" in w.sched.threads and w.setres.get(i, 0) == 0 and i not in reg and ("lost", i) not in w.flagged:
+            w.flagged.add(("lost", i))
+            r.spec.append(("bookkeeping:unfinished-future-dropped",
+                           f"job {i} was accepted and has not delivered its result, but is no longer in the executor's "
+                           f"_futures {reg} [step {n}, after {w.events[-1][0]}:{w.events[-1][1]}]"))
     for k, _wait in enumerate(w.waits):
         if k not in w.shout:
             continue
@@ -806,11 +839,22 @@ def check_quiescence(w: World, r: Run, alive_after: dict):
             if p.state == "running":
                 key, what = classify_alive(w, i, k)
                 r.spec.append((key, f"{what} [job {i}, shutdown caller {k}, step {n}]"))
+        # shutdown(wait=True) returned normally: every accepted job has delivered its result
+        if _wait and w.shout.get(k) == "ret":
+            for i in range(len(w.jobs)):
+                if f"w{i}" in w.sched.threads and w.setres.get(i, 0) == 0 and ("wait-incomplete", i, k) not in w.flagged:
+                    app = _index_of(w.events, f"s{i}", "append")
+                    fs = _index_of(w.events, f"h{k}", "flagSet")
+                    if app is not None and fs is not None and app < fs:
+                        w.flagged.add(("wait-incomplete", i, k))
+                        r.spec.append(("shutdown-wait:returned-before-accepted-job-done",
+                                       f"shutdown(wait=True) returned although job {i}, accepted before the shutdown request, "
+                                       f"has not delivered its result [shutdown caller {k}, step {n}]"))
         # no job accepted after shutdown returned
         done_at = w.finished_at.get(f"h{k}")
         for i in range(len(w.jobs)):
             first = w.first_step_at.get(f"s{i}")
-            if first is not None and done_at is not None and first > done_at and i in w.ex._futures.items_jobs():
+            if first is not None and done_at is not None and first > done_at and i in w.registered():
                 r.spec.append(("submit-accepted-after-shutdown-returned",
                                f"submit of job {i} began after shutdown caller {k} returned and was accepted"))
 
@@ -1185,7 +1229,15 @@ def correspond(ctx):
     ctx.note(f"numeric literals of processes.py / solve_low_level (+-1): {literals}")
     TIMEOUT_POOL[:] = sorted(set([7.5, 60.0, 0.001] + [float(x) for x in literals]))
 
-    variant = detect_variant()
+    # model / implementation disagreements are collected and raised only after every direct property check on the
+    # real classes has been evaluated (a changed implementation must first get the chance to show a concrete violation)
+    mismatches: list[str] = []
+    try:
+        variant = detect_variant()
+    except Exception as e:  # noqa: BLE001
+        mismatches.append(f"variant detection: {type(e).__name__}: {e}")
+        variant = "111"
+        ctx.note("variant detection failed; schedules are enumerated from the repaired model (111)")
     ctx.note(f"variant of the code under test (submitLocked cancelFlag joinFixed) = {variant}")
     ctx.count(f"variant:{variant}")
     ctx.extra["variant"] = variant
@@ -1203,16 +1255,18 @@ def correspond(ctx):
         ctx.count(f"witness:{name}:replayed")
         r = run_real(cfg, follow(labels))
         ctx.case(("witness", name))
+        report(ctx, variant, r, f"witness:{name}")
         if r.error:
-            raise RuntimeError(f"witness {name} does not replay on the real code: {r.error}")
+            mismatches.append(f"witness {name} does not replay on the real code: {r.error}")
+            continue
         keys = [k for k, _ in r.spec]
         if expected_key[name] not in keys:
-            raise RuntimeError(f"witness {name}: the model's counterexample did not show on the real code (saw {keys}); final {r.final}")
+            mismatches.append(f"witness {name}: the model's counterexample did not show on the real code (saw {keys}); final {r.final}")
+            continue
         rep = drv.ask([f"run {v} {cfg} {','.join(labels)}"])[0]
         bad = compare_with_model(r, rep)
         if bad:
-            raise RuntimeError(f"witness {name}: {bad}")
-        report(ctx, variant, r, f"witness:{name}")
+            mismatches.append(f"witness {name}: {bad}")
 
     # --- 1. corpus ---------------------------------------------------------------------------------------------------
     runs: list[tuple[Run, str]] = []
